@@ -635,8 +635,43 @@ def run_seq(scn, ops, probe=True):
 
 
 # ------------------------------------------------------------------------------------------- TLC validation
+def _last_res(tr, k):
+    """Result of the k-th completed call of thread a in a sequential trace."""
+    done = [o for i, o in enumerate(tr["obs"][1:]) if o[22] in ("Idle", "Done")]
+    return done[k][24] if k < len(done) else None
+
+
+_DETECTED = {}
+
+
 def detect_fixes():
-    return []
+    """Which of the Model's named repairs does the tree under test already contain?  Probed on the real code, so that the
+    Model of the code as found follows /repo when a deviation is repaired there."""
+    if "v" in _DETECTED:
+        return _DETECTED["v"]
+    fixes = []
+    t1 = run_seq({"fr": "cl", "sv": "ka", "mode": "stream"}, ["read", "shutdown"], probe=False)
+    t2 = run_seq({"fr": "cl", "sv": "ka", "mode": "stream"}, ["readn", "release", "shutdown"], probe=False)
+    if _last_res(t1, 1) == "err:ValueError" and _last_res(t2, 2) == "err:ValueError":
+        fixes.append("shutdown")
+    t3 = run_seq({"fr": "chunked", "sv": "ka", "mode": "stream"}, ["stream", "close", "stream"], probe=False)
+    if _last_res(t3, 2) == "err:ProtocolError":
+        fixes.append("chunkresume")
+
+    # two threads inside release_conn: the reader (at end of body) has put the connection back but not yet cleared the
+    # back-reference when the other thread calls release_conn()
+    def directed(en, n, last, pcs):
+        if "e" in en:
+            return "e"
+        if pcs["a"] != "RelClear" and "a" in en and pcs["b"] == "Idle":
+            return "a"
+        return "b" if "b" in en else en[0]
+
+    t4 = run_conc({"fr": "cl", "sv": "ka", "mode": "stream"}, ["read"], ["release"], directed, probe=False)
+    if t4["obs"][-1][14] <= 1:
+        fixes.append("atomicrelease")
+    _DETECTED["v"] = sorted(fixes)
+    return _DETECTED["v"]
 
 
 def _fixes_name(fixes):
@@ -647,7 +682,7 @@ def _fixes_name(fixes):
 
 
 def validate(traces, eager, fixes=()):
-    """{id: (position, clause, driftpos, field)} from TLC for a batch of traces."""
+    """{id: ([(clause, position), ...], driftpos, field)} from TLC for a batch of traces."""
     if not traces:
         return {}
     cfg = ("SPECIFICATION TSpec\nCONSTANTS Eager = %s\n MaxOps = 99\n Fixes <- %s\nCHECK_DEADLOCK FALSE\n"
@@ -666,7 +701,8 @@ def validate(traces, eager, fixes=()):
         ln = ln.strip().strip('"')
         if ln.startswith("VERDICT|"):
             p = ln.split("|")
-            out[p[1]] = (int(p[2]), p[3], int(p[4]), p[5])
+            fails = [] if p[2] == "ok" else [(c.split("@")[0], int(c.split("@")[1])) for c in p[2].split(",")]
+            out[p[1]] = (fails, int(p[3]), p[4])
         elif ln.startswith("DONE|"):
             done = int(ln.split("|")[1])
     if done != len(traces) or len(out) != len(traces):
@@ -827,7 +863,8 @@ def _workers():
 
 def run_conc(scn, pa, pb, chooser, max_steps=400, probe=True):
     """Reader thread a (program pa) and disposer thread b (program pb) on one REAL response, the server as third party
-    "e".  chooser(enabled, nstep, last) -> name.  Returns the trace for RespLife_Trace."""
+    "e".  chooser(enabled, nstep, last, pcs) -> name (pcs: where every thread is parked).  Returns the trace for
+    RespLife_Trace."""
     logging.getLogger("urllib3").setLevel(logging.ERROR)
     install_points()
     ctx = Ctx(scn)
@@ -888,7 +925,7 @@ def run_conc(scn, pa, pb, chooser, max_steps=400, probe=True):
                 if not en:
                     stuck = True
                     break
-                pick = chooser(sorted(en), len(steps), last)
+                pick = chooser(sorted(en), len(steps), last, {n: ctx.t[n]["pc"] for n in ("a", "b")})
                 if pick not in en:
                     unreal = (len(steps), pick, sorted(en))
                     break
@@ -944,7 +981,7 @@ def dfs_schedules(scn, pa, pb, bound, cap):
         prefix = stack.pop()
         record = []
 
-        def chooser(en, n, last, prefix=prefix, record=record):
+        def chooser(en, n, last, pcs, prefix=prefix, record=record):
             if n < len(prefix):
                 c = prefix[n]
             else:
